@@ -264,4 +264,45 @@ def unsetRoot (scopes : List String) : Except Err Unit × List RContact :=
   else if scopes == [unsetRootPool] then (.ok (), [.poolUnset])
   else (.error .invalidScope, [])
 
+/-! ### cache validation: `QCOW2ImageTransfer.compare_chain` and the routing of `TransferOps.compare`
+
+`chain` = the requested state followed by its backing dependencies (`get_dependency` until `""`). -/
+
+/-- the files of one state, in the order the loop body visits them: every image's `<image>/<state>.qcow2`, then
+`<state>.state` if asked for -/
+def stateFiles (images : List String) (withVmState : Bool) (st : String) : List String :=
+  images.map (fun i => i ++ "/" ++ st ++ chainImageSuffix) ++ (if withVmState then [st ++ chainStateSuffix] else [])
+
+/-- all files backing a state, in visiting order; the vm state file only for the requested state itself
+(`next_state == state and params["object_type"] in ["vms", "nets/vms"]`) -/
+def chainFiles (images : List String) (isVm : Bool) (chain : List String) : List String :=
+  match chain with
+  | [] => []
+  | first :: _ => chain.flatMap (fun st => stateFiles images (isVm && st == first) st)
+
+/-- compare in order, stop at the first difference: verdict and the files compared -/
+def compareFiles (same : String → Bool) : List String → Bool × List String
+  | [] => (true, [])
+  | f :: fs => if same f then let r := compareFiles same fs; (r.1, f :: r.2) else (false, [f])
+
+/-- `compare_chain(state, cache_dir, pool_dir, params)`; `same f` = `ops.compare(cache_dir/vm/f, pool_dir/vm/f)` -/
+def compareChain (images : List String) (isVm : Bool) (same : String → Bool) (chain : List String) :
+    Bool × List String :=
+  compareFiles same (chainFiles images isVm chain)
+
+inductive CmpRoute
+  | remote (cache pool : String)       -- `compare_remote(cache_path, pool_path)`
+  | link (cache path : String)         -- `compare_link(cache_path, path.replace(";", ""))`
+  | plain (cache path : String)        -- `compare_local(cache_path, path)`
+deriving DecidableEq, Repr
+
+/-- `TransferOps.compare`: `hosts, path = pool_path.split(":")`; remote if `hosts != ""`, link if `";" in path` -/
+def compareRoute (cache pool : String) : Except Err CmpRoute :=
+  match splitColon pool.toList with
+  | [h, p] =>
+    if !h.isEmpty then .ok (.remote cache pool)
+    else if p.contains ';' then .ok (.link cache (String.ofList (p.filter (· != ';'))))
+    else .ok (.plain cache (String.ofList p))
+  | _ => .error .valueError
+
 end I2N.Pool
